@@ -129,6 +129,7 @@ type node struct {
 	done     chan error
 	shrunk   chan struct{}
 	caughtUp chan struct{} // follow.caughtup points
+	hookGen  int64         // generation of this node's hook (its port may be reused by a later node)
 }
 
 var (
@@ -192,6 +193,7 @@ func startNodeOnce(base string, protected, spin bool) (*node, error) {
 			}
 		}
 	})
+	n.hookGen = t38.HookGeneration(n.port)
 	if err := n.launch(protected, spin); err != nil {
 		return nil, err
 	}
@@ -269,7 +271,7 @@ func (n *node) stop() {
 	if n.s != nil {
 		n.s.VerifCloseFiles()
 	}
-	t38.SetHook(n.port, nil)
+	t38.ClearHookIf(n.port, n.hookGen)
 	os.RemoveAll(n.dir)
 }
 
